@@ -113,6 +113,18 @@ func zzCheckRoundTrip(item ast.ItemNode, st, fn, wb, sid int, sys []byte, name s
 	if name == "" {
 		rt.Assert(rt.StrEq(d.String(), m.String()), "item-tree-identical")
 	}
+	// the same message sent again under a new transaction (derived after it was encoded once)
+	sid2, sys2 := int(rt.Uint16("sid2")), rt.Bytes("sys2", 4)
+	m2 := m.SetSessionIDAndSystemBytes(sid2, sys2)
+	b2 := m2.ToBytes()
+	got2, ok2 := Parse(append([]byte{}, b2...))
+	rt.Assert(ok2, "resend:decode-ok")
+	if d2, isData2 := got2.(*ast.DataMessage); ok2 && isData2 {
+		rt.Assert(d2.SessionID() == sid2, "resend:session-id")
+		rt.Assert(rt.BytesEq(d2.SystemBytes(), sys2), "resend:system-bytes")
+		rt.Assert(rt.BytesEq(d2.ToBytes(), b2), "resend:re-encode-identical")
+	}
+	rt.Assert(rt.BytesEq(m.ToBytes(), b), "resend:original-unchanged")
 }
 
 // ZZ_C01_leaf: encode -> decode -> encode for one leaf format with n symbolic elements.
